@@ -8,6 +8,7 @@ pub mod foreign;
 pub mod handles;
 pub mod hist;
 pub mod hostile;
+pub mod huge;
 pub mod modes;
 pub mod more;
 pub mod names;
@@ -32,6 +33,12 @@ pub fn dispatch(ctx: &Ctx, rep: &mut Report) -> bool {
         "C16" => modes::run_c16(ctx, rep),
         "C17" => more::run_c17(ctx, rep),
         "C18" => diff::run_c18(ctx, rep),
+        "HUGE" => {
+            for v in 0..5 {
+                huge::huge_scenario(ctx, rep, "beyond 4 GiB", v);
+                rep.evaluations += 1;
+            }
+        }
         _ => return false,
     }
     true
